@@ -94,7 +94,9 @@ func (h *Hist) begin(op string, owners ...string) {
 	h.group++
 	h.curOp = op
 	h.curOwner = owners
-	h.dirty = map[int]bool{}
+	if h.unchecked == 0 {
+		h.dirty = map[int]bool{}
+	} // (otherwise: a stretch without full reads is in progress, what it may change accumulates)
 	h.counters["op:"+op]++
 	h.opSeq = fnv(h.opSeq, hashString(op))
 }
